@@ -28,7 +28,13 @@ func main() {
 	merge := flag.Bool("merge", false, "print the size of the union of signature files given as arguments")
 	meta := flag.Bool("meta", false, "print property metadata")
 	args := flag.String("args", "", "k=v,k=v extra arguments")
+	beat := flag.String("beat", "", "heartbeat file shared with the driver")
 	flag.Parse()
+	if *beat != "" {
+		if err := core.AttachBeat(*beat); err != nil {
+			fmt.Fprintln(os.Stderr, "heartbeat:", err)
+		}
+	}
 
 	if *merge {
 		n, err := core.MergeSigs(flag.Args())
